@@ -2,6 +2,7 @@
 # pylint: disable=too-many-lines
 
 import abc
+import base64
 import collections
 import datetime
 import enum
@@ -473,9 +474,13 @@ class FieldValueComponentStringBase64(FieldValueComponentQuotedString):
     def _check_name(cls, name):
         cls._check_name_insensitive(name)
 
+    @staticmethod
+    def _decode_base64(value):
+        return Base64Data(base64.b64decode(value))
+
     @classmethod
     def _parse_value(cls, parser):
-        parser.parse_string_by_length('value')
+        parser.parse_string_by_length('value', item_class=cls._decode_base64)
 
 
 @attr.s
